@@ -448,7 +448,7 @@ def cases(ctx):
     quick = ctx.tier == "quick"
     i = 0
     import random as _r
-    nstreams = 3 if quick else 24
+    nstreams = 6 if quick else 24
     for fmt, mk in (("beast", beast_specs), ("beast_rssi", beast_specs), ("raw", raw_specs), ("sky", sky_specs)):
         for sidx in range(nstreams if fmt != "beast_rssi" else max(1, nstreams // 3)):
             srng = _r.Random((ctx.seed * 1000 + sidx) * 7 + len(fmt))   # identical stream on every shard
@@ -467,13 +467,13 @@ def cases(ctx):
                     yield "stream", {"kind": fmt, "specs": specs, "mode": "double", "range": [lo, lo + step]}
                 i += 1
     # more streams with single + random cuts only
-    for k in range(ctx.share(48 if quick else 1500)):
+    for k in range(ctx.share(160 if quick else 1500)):
         fmt, mk = rng.choice((("beast", beast_specs), ("beast", beast_specs), ("beast_rssi", beast_specs), ("raw", raw_specs), ("sky", sky_specs)))
         specs = mk(rng, rng.randint(3, 12))
         yield "stream", {"kind": fmt, "specs": specs, "mode": "single"}
         yield "stream", {"kind": fmt, "specs": specs, "mode": "random", "n": 40}
     # NetSource
-    for k in range(ctx.share(64 if quick else 2000)):
+    for k in range(ctx.share(300 if quick else 2000)):
         batches = []
         t = 1000.0
         for _ in range(rng.randint(3, 20)):
@@ -492,7 +492,7 @@ def cases(ctx):
             batches.append(b)
         yield "netsource", {"batches": batches}
     # end-to-end sessions
-    for k in range(ctx.share(6 if quick else 200)):
+    for k in range(ctx.share(12 if quick else 200)):
         fmt, mk = (("beast", beast_specs), ("raw", raw_specs), ("sky", sky_specs))[k % 3]
         specs = mk(rng, rng.randint(4, 10))
         stream = mk_stream(fmt, specs)[0]
